@@ -96,8 +96,11 @@ def run_case(case: dict) -> dict:
 
     def proj():
         subs = [[cid, [label(c) for c in lst]] for cid, lst in sorted(net.subscribers.items()) if lst]
-        nodes = [[nid, "local" if isinstance(n, canopen.LocalNode) else "remote", cur_gen.get(nid, 0)]
-                 for nid, n in sorted(net.nodes.items())]
+        # through the mapping interface of the network (iteration, item access, length)
+        nodes = [[nid, "local" if isinstance(net[nid], canopen.LocalNode) else "remote", cur_gen.get(nid, 0)]
+                 for nid in sorted(net)]
+        if len(net) != len(nodes) or sorted(net.nodes) != [n[0] for n in nodes]:
+            nodes.append([-1, "mapping interface disagrees with network.nodes", 0])
         return {"subs": subs, "nodes": nodes, "scan": list(net.scanner.nodes)}
 
     def log(e, raised=False):
@@ -139,7 +142,14 @@ def run_case(case: dict) -> dict:
                     REG[id(node.sdo)] = REG[id(node.nmt)] = (nid, g)
                 how = op.get("how", "add")
                 try:
-                    if how == "setitem":
+                    if how == "int" and not op.get("extra"):
+                        # node object created by the network from a node id
+                        node = net.add_node(nid, od) if op["kind"] == "remote" else net.create_node(nid, od)
+                        if op["kind"] == "remote":
+                            REG[id(node.sdo)] = REG[id(node.nmt)] = REG[id(node.emcy)] = (nid, g)
+                        else:
+                            REG[id(node.sdo)] = REG[id(node.nmt)] = (nid, g)
+                    elif how == "setitem":
                         net[nid] = node
                     elif op["kind"] == "remote":
                         net.add_node(node)
